@@ -72,6 +72,7 @@ void World::begin(uint64_t sched_salt, RunResult *r, bool keep_log, bool echo) {
   partitioned.clear();
   read_cuts.clear();
   write_cuts.clear();
+  deliver_chunks.clear();
   read_cut_source = nullptr;
   default_read_cut = 0;
   icmp_on_nosock = false;
@@ -81,6 +82,7 @@ void World::begin(uint64_t sched_salt, RunResult *r, bool keep_log, bool echo) {
   aborted = false;
   abort_why.clear();
   max_events = 200000;
+  max_spin = 20000;
   max_sim_ns = 4000ull * 1000000000ull;
   start_ns = simk::K().now_ns;
   g_world = this;
@@ -91,9 +93,23 @@ void World::begin(uint64_t sched_salt, RunResult *r, bool keep_log, bool echo) {
     after_us(base_latency_us, [fd]() { simk::complete_connect(fd, true); });
   };
   h.on_stream_data = [this](simk::Stream *s, int side, const Bytes &b) {
-    Bytes copy = b;
-    count("fault.none.stream_bytes", b.size());
-    after_us(base_latency_us, [s, side, copy]() { simk::deliver_stream(s, 1 - side, copy); });
+    count("probe.stream_bytes", b.size());
+    auto it = deliver_chunks.find({s->id, side});
+    size_t off = 0;
+    int64_t delay = base_latency_us;
+    while (off < b.size()) {
+      size_t n = b.size() - off;
+      if (it != deliver_chunks.end() && !it->second.empty()) {
+        size_t c = it->second.front();
+        it->second.pop_front();
+        if (c == 0) c = 1;
+        if (c < n) { n = c; count("fault.segmented_delivery"); }
+      }
+      Bytes copy(b.begin() + (long)off, b.begin() + (long)(off + n));
+      after_us(delay, [s, side, copy]() { simk::deliver_stream(s, 1 - side, copy); });
+      off += n;
+      delay += 1000;
+    }
   };
   h.on_stream_close = [this](simk::Stream *s, int side) {
     after_us(base_latency_us, [s, side]() { simk::deliver_fin(s, 1 - side, false); });
@@ -214,7 +230,7 @@ bool World::loop(const std::function<bool()> &stop, uint64_t until_ns) {
     }
     for (auto &p : pollers) p();
     if (stepped) {
-      if (++spin > 20000) { aborted = true; abort_why = "spin"; if (res) res->violate("M-mem.spin", "spin", "node ready forever without time advancing"); return false; }
+      if (++spin > max_spin) { aborted = true; abort_why = "spin"; if (res) res->violate("M-mem.spin", "spin", "node ready forever without time advancing"); return false; }
       continue;
     }
     // 2. nothing runnable now: next event or timer
